@@ -81,6 +81,12 @@ func TestC12Core(t *testing.T) {
 		cfg := sim.DrawCoreCfg(rt)
 		fs := sim.DrawFateScript(rt, opts)
 		app := drawCoreApps(rt, cfg, 25, 80_000)
+		// stalled readers: zero-window probing and its timers must survive the wrap too
+		for w := 0; w < 2; w++ {
+			if rapid.Bool().Draw(rt, "stall") {
+				app[w].Pauses = []sim.Pause{{AfterBytes: int64(rapid.IntRange(0, 30000).Draw(rt, "stallAfter")), Ms: int64(rapid.SampledFrom([]int{300, 1500, 7000, 40000}).Draw(rt, "stallMs"))}}
+			}
+		}
 		nseg := [2]int{}
 		for w := 0; w < 2; w++ {
 			for _, n := range app[w].Writes {
@@ -90,7 +96,7 @@ func TestC12Core(t *testing.T) {
 		shifted := cfg
 		shifted.SeqOff[0] = drawOffset(rt, "snA", nseg[0]+3)
 		shifted.SeqOff[1] = drawOffset(rt, "snB", nseg[1]+3)
-		shifted.ClockOff = drawOffset(rt, "clk", 30000)
+		shifted.ClockOff = drawOffset(rt, "clk", 60000)
 		run := func(c sim.CoreCfg) (tr []normDgram, st sim.CoreStats, err error) {
 			rapid.SyncTest(rt, func(rt *rapid.T) {
 				s := sim.NewCoreSim(c, fs, app)
@@ -101,7 +107,7 @@ func TestC12Core(t *testing.T) {
 					tr = append(tr, normalize(c, e))
 					return nil
 				}
-				err = s.Run(fs.EndTime() + 300_000)
+				err = s.Run(fs.EndTime() + 400_000)
 				st = s.Stats
 			})
 			return
